@@ -15,6 +15,11 @@ def run(ctx):
         ctx.sample(scen, 1)
         trace = ctx.execute("objmodel", scen)
         ev, verdicts, rejected = ctx.validate("ObjectModel", "Trace_ObjectModel.tla", strict, trace, "objmodel", parallel=14, heap="4g")
+    # mechanism level: equivalence lists with dead entries over four variables (histories the abstract state graph cannot distinguish)
+    wide = ctx.gen("ObjectModel", "MC_EquivList.tla", ("MC_Eq" if ctx.quick else "MC_E") + ".cfg", "equivlist", workers=8, timeout=2400, heap="12g")
+    ctx.sample(wide, 1)
+    wtrace = ctx.execute("objmodel", wide)
+    ctx.validate("ObjectModel", "Trace_ObjectModel.tla", "Trace_ObjectModel_wide.cfg", wtrace, "objmodel", parallel=14, heap="4g")
     # second sentence of the property: the services' methods that take an entity, an index or a name, with every kind of bad value
     bad = ctx.gen("BadArgs", "Gen_BadArgs.tla", "Gen_BadArgs.cfg", "badargs", workers=2)
     ctx.sample(bad, 2)
@@ -25,7 +30,8 @@ def run(ctx):
                "every edge (state, command) of the reachable graph of the ObjectModel reference over projections of the universe "
                "{2 models, 3 components, 3 variables, 3 units, 2 resets; look-alike names}, each replayed on the real library from a fresh universe "
                "after the BFS-shortest history of its source state; plus every command of the alphabet with null / one-past-the-end / unknown-name "
-               "arguments in every state at depth <= 2; plus the BadArgs table: 77 methods of importer, annotator, analyser, external variables, analyser-model queries, validator, printer, generator, parser "
+               "arguments in every state at depth <= 2; plus MC_EquivList: the equivalence lists of four parentless variables with their dead entries (model-checked to expose ObjectModel's symmetric relation), "
+               "one scenario per (state with a dead entry, command); plus the BadArgs table: 77 methods of importer, annotator, analyser, external variables, analyser-model queries, validator, printer, generator, parser "
                "x {null, never added to a model, owner destroyed, one past the end, unknown name / key / id, entity of another model} (98 calls): outcome class, unchanged models and service state, service still working afterwards "
                "(thorough: ASan + UBSan build); non-trivial = each scenario is a distinct (state, command) pair",
                ["TLC validates every logged step against ObjectModel!Apply and evaluates OwnershipInv in every observed state",
